@@ -73,7 +73,7 @@ pub struct Findings {
     pub fixed_lines: Vec<String>,
 }
 impl Findings {
-    pub fn load(preds: BTreeMap<String, Predicate>) -> Findings {
+    pub fn load(prop: &str, preds: BTreeMap<String, Predicate>) -> Findings {
         let path = format!("{VERIF_DIR}/known_findings.json");
         let mut list = Vec::new();
         let mut fixed_lines = Vec::new();
@@ -93,6 +93,9 @@ impl Findings {
                     predicate: f["predicate"].as_str().unwrap_or("").to_string(),
                     what: f["what"].as_str().unwrap_or("").to_string(),
                 };
+                if fd.property != prop {
+                    continue;
+                }
                 if !preds.contains_key(&fd.predicate) {
                     machinery_failure(&format!("known_findings.json: finding {} names unknown predicate '{}'", fd.id, fd.predicate));
                 }
@@ -245,7 +248,7 @@ impl Ctx {
             tier,
             seed,
             start: Instant::now(),
-            findings: Findings::load(preds),
+            findings: Findings::load(prop, preds),
             bound: Value::Null,
             alphabets: vec![],
             assumptions: vec![],
